@@ -417,6 +417,8 @@ def check(prog, run):
                 run.report(r, "%s:Executor.execute_fields:parallel-lists(%s)" % (EXE, ">".join(seq)), ef.where(loop[0]),
                            "keys and pending results are not appended together on every iteration: values would be zipped with the wrong keys")
 
+    check_flatten_before_finalise(prog, run)
+
 
 def _else_names(f):
     """Names bound by unpacking else_: `exc_type, cb = else_`."""
@@ -476,3 +478,52 @@ def _nonlocals(cb):
         if isinstance(n, ast.Nonlocal):
             out.update(n.names)
     return out
+
+
+def check_flatten_before_finalise(prog, run):
+    """R9: the finaliser that snapshots executor.errors runs only on a flattened value."""
+    from .. import boolx
+    r = run.rule("R9", "wherever a callback that builds the final GraphQLResult (data + executor.errors) is attached with "
+                       "runtime.map_value, on every path the mapped value has gone through runtime.unwrap_value: serial execution "
+                       "and deferred sub-selections return wrapped values nested in wrapped values, and an unflattened one makes "
+                       "the deferred runtimes finish early (pending future / coroutine as data, errors snapshotted too soon) while "
+                       "the blocking configurations are unaffected", 2)
+    found = 0
+    for f in prog.all_funcs():
+        if not f.module.name.startswith("py_gql.execution") or f.module.name.startswith(RT):
+            continue
+        finalisers = set()
+        for name, nf in f.nested.items():
+            if any(isinstance(n, ast.Call) and isinstance(n.func, ast.Name) and n.func.id == "GraphQLResult" for n in ast.walk(nf.node)):
+                finalisers.add(name)
+
+        def is_finaliser(e):
+            if isinstance(e, ast.Name) and e.id in finalisers:
+                return True
+            return isinstance(e, ast.Lambda) and any(isinstance(n, ast.Call) and isinstance(n.func, ast.Name) and n.func.id == "GraphQLResult"
+                                                      for n in ast.walk(e.body))
+        maps = [n for n in own_nodes(f.node) if isinstance(n, ast.Call) and isinstance(n.func, ast.Attribute) and n.func.attr == "map_value"
+                and len(n.args) >= 2 and is_finaliser(n.args[1])]
+        if not maps:
+            continue
+        run.looked_at(f)
+        try:
+            _ev, exits = boolx.walk_under(f.node, lambda t: None)
+        except ValueError as e:
+            raise AnalysisError("C08.R9: %s" % e)
+        for mcall in maps:
+            found += 1
+            paths = [(k, st, env) for k, st, env in exits if any(c is mcall for c in env.get(boolx.CALLS, ()))]
+            r.instance("%s: map_value(_, <finaliser>) reached on %d paths" % (f.qualname, len(paths)))
+            shapes.require(bool(paths), "C08.R9: no path of %s reaches its finalising map_value" % f.qualname)
+            for k, st, env in paths:
+                calls = env.get(boolx.CALLS, ())
+                un = [c for c in calls if isinstance(c.func, ast.Attribute) and c.func.attr == "unwrap_value"]
+                if not un:
+                    cond = ", ".join("%s=%s" % kv for kv in sorted(env.items()) if kv[0] != boolx.CALLS)
+                    run.report(r, "%s:%s:finalised-unflattened" % (f.module.name, f.qualname), f.where(mcall),
+                               "on the path where %s the value given to map_value(_, <builds GraphQLResult>) has not been passed "
+                               "through runtime.unwrap_value: a nested wrapped value (serial chain, deferred sub-selection) becomes "
+                               "the response data under the asyncio and thread-pool runtimes" % (cond or "(unconditional)"))
+                    break
+    shapes.require(found >= 2, "C08.R9: expected the finalising map_value of execute() and of execute_subscription_event(), found %d" % found)
